@@ -5,6 +5,7 @@ import re
 from ..core import AnalysisError
 from .shared_py import inn
 from ..pyfront import unparse, path_conditions, norm_key
+from ..pyfront import ws  # noqa: E402,F401
 from . import shared_py as P
 
 
@@ -35,11 +36,11 @@ def optional_decode(ctx, L):
     rets = [r for r in ast.walk(f.node) if isinstance(r, ast.Return)]
     present = [r for r in rets if any(unparse(t) == 'value' and p for t, p, h in path_conditions(f.module, f, r))]
     absent = [r for r in rets if any(unparse(t) == 'value' and not p for t, p, h in path_conditions(f.module, f, r))]
-    ok = len(absent) == 1 and re.sub(r'\s+', ' ', unparse(absent[0].value)) in ('opt_alignment + type_._SIZE', 'type_._OPTIONAL_SIZE')
+    ok = len(absent) == 1 and ws(unparse(absent[0].value)) in ('opt_alignment + type_._SIZE', 'type_._OPTIONAL_SIZE')
     L.check(ok, 'F1.optional-mirror', 'decode_optional|absent-consumes-slot', f.site(absent[0] if absent else None),
             'an absent optional must consume the full static slot (_OPTIONAL_ALIGNMENT + _SIZE), the number of zero bytes '
             'encode_optional emits', unparse(absent[0].value) if absent else '')
-    ok = len(present) == 1 and re.sub(r'\s+', ' ', unparse(present[0].value)) == \
+    ok = len(present) == 1 and ws(unparse(present[0].value)) == \
         'opt_alignment + type_._decode(parent, name, sub_type, data, pos, endianness, len_hints)' and \
         P.has(f, 'pos += opt_alignment') and P.has(f, 'sub_type = type_.__bases__[0]')
     L.check(ok, 'F1.optional-mirror', 'decode_optional|present', f.site(present[0] if present else None),
@@ -69,14 +70,16 @@ def union_decode(ctx, L):
 def terminal_clause(ctx, L):
     comp = ctx.py.mod('prophy.composite')
     f = comp.func('struct._decode_impl')
-    tests = [n for n in f.node.body if isinstance(n, ast.If) and re.sub(r'\s+', ' ', unparse(n.test)) == 'terminal and pos < len(data)'
+    DECODE_IMPL = ['self', 'data', 'pos', 'endianness', 'terminal']
+    tests = [n for n in f.node.body if isinstance(n, ast.If) and P.sem_is(f, n.test, 'terminal and pos < len(data)', DECODE_IMPL)
              and isinstance(n.body[-1], ast.Raise)]
     L.check(len(tests) == 1, 'C02.terminal-check', 'struct._decode_impl|unread-bytes', f.site(),
             'a terminal decode must reject unread trailing bytes (`terminal and pos < len(data)` -> ProphyError)', '')
     L.check(P.has(f, 'return pos - start_pos') and P.has(f, 'start_pos = pos'), 'C02.terminal-check',
             'struct._decode_impl|consumed', f.site(), 'consumed length is the cursor distance', '')
     u = comp.func('union._decode_impl')
-    tests = [n for n in u.node.body if isinstance(n, ast.If) and re.sub(r'\s+', ' ', unparse(n.test)) == 'terminal and bytes_read > self._SIZE']
+    tests = [n for n in u.node.body if isinstance(n, ast.If) and P.sem_is(u, n.test, 'terminal and len(data) - pos > self._SIZE', DECODE_IMPL)
+             and isinstance(n.body[-1], ast.Raise)]
     L.check(len(tests) == 1, 'C02.terminal-check', 'union._decode_impl|unread-bytes', u.site(),
             'a terminal union decode must reject bytes beyond the static size', '')
     for q in ('struct.decode', 'union.decode'):
@@ -146,7 +149,7 @@ def decode_writes(ctx, L):
 def array_decoders(ctx, L):
     cont = ctx.py.mod('prophy.container')
     f = cont.func('decode_scalar_array')
-    src = re.sub(r'\s+', ' ', unparse(f.node))
+    src = ws(unparse(f.node))
     for piece, why in (
             ('if count is None: items, remainder = divmod(len(data) - pos, tp._SIZE) count = items + bool(remainder)',
              'a greedy scalar array takes all remaining bytes; a trailing partial element must be attempted (and rejected), '
@@ -194,11 +197,11 @@ def array_decoders(ctx, L):
         L.check(P.has(g, piece), 'C02.array-decode', q, g.site(), 'scalar arrays decode through decode_scalar_array with '
                 'their own element type and count (`%s`)' % piece, unparse(g.node))
     g = cont.func('fixed_composite_array._decode_impl')
-    s = re.sub(r'\s+', ' ', unparse(g.node))
+    s = ws(unparse(g.node))
     L.check(inn('for elem in self: cursor += elem._decode_impl(data, pos + cursor, endianness, terminal=False)', s) and inn('return cursor', s),
             'C02.array-decode', 'fixed_composite_array._decode_impl', g.site(), 'every element is decoded consecutively', s)
     g = cont.func('bound_composite_array._decode_impl')
-    s = re.sub(r'\s+', ' ', unparse(g.node))
+    s = ws(unparse(g.node))
     L.check('del self[:]' in s, 'C02.array-decode', 'bound_composite_array._decode_impl|clear', g.site(),
             'previous elements are dropped before decoding', '')
     L.check(inn('if not self._SIZE and (not self._BOUND): while pos + cursor < len(data): cursor += self.add()._decode_impl(data, pos + cursor, endianness, terminal=False)', s),
